@@ -19,12 +19,12 @@ type c18 struct {
 	tier string
 	n    int
 	st   struct {
-		Exec, WithOccurrence, WithoutOccurrence, IncludeBannedRuns, DiskStates   int
+		Exec, WithOccurrence, WithoutOccurrence, IncludeBannedRuns, DiskStates    int
 		ViaMacroBody, ViaIncludedFile, Direct, Singletons, LargerSets, OtherFault int
-		KindsBanned                                                              [nDirectiveKinds]int
-		KindsOccurred                                                            [nDirectiveKinds]int
-		Distinct, Nontrivial                                                     map[uint64]bool
-		Samples                                                                  []any
+		KindsBanned                                                               [nDirectiveKinds]int
+		KindsOccurred                                                             [nDirectiveKinds]int
+		Distinct, Nontrivial                                                      map[uint64]bool
+		Samples                                                                   []any
 	}
 }
 
